@@ -3,7 +3,7 @@
 EXTENDS Integers, Sequences, TLC, Json
 CONSTANTS MaxLater
 VARIABLES c
-Kinds == {"addr4", "addr6", "addrother", "unknown", "ipv4", "ipv6", "octets", "utf8", "u32", "time", "mixed"}
+Kinds == {"addr4", "addr6", "addrother", "unknown", "ipv4", "ipv6", "octets", "utf8", "u32", "time", "mixed", "octets300", "utf8300"}
 Later == {[how |-> h, size |-> z] : h \in {"same", "goroutine", "conn"}, z \in {"small", "large"}}
 Init == c \in {[kind |-> k, depth |-> d, size |-> z, history |-> <<>>] : k \in Kinds, d \in 0..2, z \in {"small", "large"}}
 Next == /\ Len(c.history) < MaxLater
